@@ -284,13 +284,14 @@ def _exact_match(kind, pattern, flags):
         if isinstance(s, SBytes) != isinstance(pattern, bytes):
             it.raise_(TypeError, "cannot use a string pattern on a bytes-like object")
         if kind == "fullmatch":
-            L = R
+            hit = z3.InRe(s.t, R)
         elif end:
-            L = z3.Concat(R, z3.Option(z3.Re(z3.StringVal("\n"))))
+            # s in R.(\n)?  written as  s in R  or  (s ends with \n and s[:-1] in R): same language, propositionally simpler
+            hit = z3.Or(z3.InRe(s.t, R), z3.And(z3.SuffixOf(z3.StringVal("\n"), s.t), z3.InRe(z3.SubString(s.t, 0, z3.Length(s.t) - 1), R)))
         else:
-            L = z3.Concat(R, z3.Full(z3.ReSort(_S)))
+            hit = z3.InRe(s.t, z3.Concat(R, z3.Full(z3.ReSort(_S))))
         it.ex.note("lib", f"re {kind} {pattern!r} (exact SMT regex)")
-        if it.branch(SBool(z3.InRe(s.t, L))):
+        if it.branch(SBool(hit)):
             return SObj(re.Match, {"re": SConst(pattern), "string": s})
         return NONE
 
